@@ -412,6 +412,9 @@ func checkC09(c *Ctx) {
 	checkIsearchLiteralFallback(c, "C09.invalid-regex-searched")
 	checkEndOfHistory(c, "C09.end-of-history-past-newest")
 	checkC09LineStateKey(c)
+	checkC09SearchDown(c)
+	checkC09NoSaveAfterGrowth(c)
+	checkC09IsearchRestores(c)
 }
 
 // ---- C09.line-state-key: the saved states of a history line are kept under a key that survives the growth of the history
